@@ -287,6 +287,19 @@ def dense_cases(ctx):
     out += [(wave, tol) for tol in (0.001, 0.01, 0.1)]
     line = tuple((0.25 * k, 0.125 * k) for k in range(300)) + ((80.0, 3.0),)
     out += [(line, tol) for tol in (0.01, 0.5)]
+    # a stroke retraced to (almost) where it began: the chord from the run's start to its end is
+    # a few units in the last place long - not zero - and the vertex in between is far away
+    for x_0 in (1.0, 1024.0, 0.1, -3.0):
+        ulp = math.ulp(x_0)
+        for gap in (2, 4, 64):
+            for height in (1.0, 2.5, 1e-3):
+                for tol in (0.01, 0.05, height / 2):
+                    if tol <= 0:
+                        continue
+                    loop = ((x_0, 0.0), (x_0 + (gap // 2) * ulp, height), (x_0 + gap * ulp, 0.0))
+                    out.append((loop, tol))
+                    out.append((tuple((y, x) for x, y in loop), tol))
+                    out.append((((x_0 - 5.0, 0.0),) + loop + ((x_0 + 7.0, -1.0),), tol))
     # near-repeats far from the origin: consecutive vertices closer than 1e-9 of their
     # magnitude (equal for math.isclose) yet four tolerances apart, creeping sideways off a
     # chord - along either axis, as tuples; all coordinates exact
